@@ -682,6 +682,7 @@ def _boxed_pred(kind, sort):
 
 
 SPECFUNS["is_boxed_str"] = _boxed_pred("str", z3.StringSort())
+SPECFUNS["is_boxed_int"] = _boxed_pred("int", z3.IntSort())
 SPECFUNS["is_boxed_bytes"] = _boxed_pred("bytes", z3.StringSort())
 
 
@@ -813,6 +814,24 @@ def _attrgetter_of(se, a, kw):
 def _g_str(se, a, kw):
     q = z3.simplify(a[0].t).as_string()
     return V(STR, z3.Const("G_" + q, z3.StringSort()))
+
+
+@specfun("filepos_text")
+def _filepos_text(se, a, kw):
+    return V(STR, ops.UF("filepos_text", z3.IntSort(), z3.IntSort(), z3.IntSort(), z3.StringSort())(box(a[0]).t, box(a[1]).t, box(a[2]).t))
+
+
+@specfun("exc_lineno")
+def _exc_lineno(se, a, kw):
+    """getattr(exc, 'lineno', None) of an arbitrary exception object"""
+    nm = z3.StringVal("lineno")
+    has = ops.UF("hasattr", z3.IntSort(), z3.StringSort(), z3.BoolSort())(a[0].t, nm)
+    return V(ANY, z3.If(has, ops.UF("getattr", z3.IntSort(), z3.StringSort(), z3.IntSort())(a[0].t, nm), z3.IntVal(0)))
+
+
+@specfun("unbox_int")
+def _unbox_int(se, a, kw):
+    return V(INT, ops.UF("unbox_int", z3.IntSort(), z3.IntSort())(a[0].t))
 
 
 @specfun("the")
